@@ -84,6 +84,10 @@ pub struct Plan {
     /// bit k: task k writes a burst of 150-400 lines at once (tens of KiB per flush)
     #[serde(default)]
     pub bursts: u32,
+    /// bit k: task k first writes one very long line of multi-byte characters (just over 4, 8,
+    /// 16 or 64 KiB; the offset of the characters varies with the length of the line's tag)
+    #[serde(default)]
+    pub long_lines: u32,
 }
 
 #[derive(Debug, Clone, Serialize, Deserialize)]
@@ -103,8 +107,9 @@ pub fn plan(max_layer: usize, chatty: bool) -> impl Strategy<Value = Plan> {
         prop_oneof![1 => Just(0u32), 2 => any::<u32>()],
         prop_oneof![2 => Just(0u32), 1 => any::<u32>().prop_map(|x| x & 0x1111_1111)],
         prop_oneof![2 => Just(0u32), 1 => any::<u32>().prop_map(|x| x & 0x2222_2222)],
+        prop_oneof![2 => Just(0u32), 1 => any::<u32>().prop_map(|x| x & 0x4924_9249)],
     )
-        .prop_map(|(layers, picks, ncmd, tasks, fail, unterminated, split_lines, bursts)| Plan {
+        .prop_map(|(layers, picks, ncmd, tasks, fail, unterminated, split_lines, bursts, long_lines)| Plan {
             layers,
             picks,
             ncmd,
@@ -113,6 +118,7 @@ pub fn plan(max_layer: usize, chatty: bool) -> impl Strategy<Value = Plan> {
             unterminated,
             split_lines,
             bursts,
+            long_lines,
         })
 }
 
@@ -196,6 +202,15 @@ pub fn install(env: &Env, plan: &Plan, tag_lines: bool) -> Setup {
                     for j in 0..n {
                         b.extend_from_slice(format!("{}¦{}¦{}¦b{} 出力 ünï¢ode ✓ line\n", t.path, c, stream, j).as_bytes());
                     }
+                    v.push(Step::W(b));
+                }
+                if plan.long_lines >> (task_no % 32) & 1 == 1 && lines > 0 {
+                    let size = [4_090usize, 8_185, 16_380, 65_530][(pause as usize + task_no) % 4] + (pause as usize % 16);
+                    let mut b = format!("{}¦{}¦{}¦long ", t.path, c, stream).into_bytes();
+                    while b.len() < size {
+                        b.extend_from_slice("€".as_bytes());
+                    }
+                    b.push(b'\n');
                     v.push(Step::W(b));
                 }
                 for j in 0..lines {
